@@ -11,3 +11,8 @@ import AxVerif.Model.Db
 import AxVerif.Driver.Hist
 import AxVerif.Thm.C04
 import AxVerif.Thm.C03
+import AxVerif.Model.Wal
+import AxVerif.Generated.Wal
+import AxVerif.Driver.Wal
+import AxVerif.Lemmas.Wal
+import AxVerif.Thm.C17
